@@ -28,7 +28,7 @@ for pid in ALL:
     })
 manifest = {
     "version": 1,
-    "setup_cmd": "cd /verif/lean && lake build driver ShapeVerif && cd /verif/harness && CARGO_NET_OFFLINE=true cargo build --release --offline && cd /verif/genbatch && CARGO_NET_OFFLINE=true cargo build --offline",
+    "setup_cmd": "cd /verif/lean && lake build driver ShapeVerif && cd /verif/harness && CARGO_NET_OFFLINE=true cargo build --release --offline && cd /verif/genbatch && CARGO_NET_OFFLINE=true cargo build --offline && cd /verif/macrocheck && CARGO_NET_OFFLINE=true cargo build --offline",
     "hooks": {
         "guard": "cargo feature `verif` of json_shape and json_shape_build (off by default)",
         "enable": "the harness crate /verif/harness depends on /repo/json_shape and /repo/json_shape_build by path with features = [\"verif\"]",
